@@ -1,0 +1,362 @@
+//! Verification hooks (only compiled with `--cfg libp2p_verif`).
+//!
+//! Visibility shims around crate-private items so that an external harness can drive the real
+//! routing table, the real peer iterators and the real wire codec. Nothing in here re-implements
+//! logic of the crate: every function forwards to the private item it exposes.
+
+use std::{io, num::NonZeroUsize, time::Duration};
+
+use asynchronous_codec::{Decoder, Encoder};
+use bytes::BytesMut;
+use libp2p_identity::PeerId;
+use web_time::Instant;
+
+pub use crate::{
+    handler::RequestId,
+    kbucket::{Distance, KeyBytes, NodeStatus, U256},
+    protocol::{KadRequestMsg, KadResponseMsg},
+    query::verif_peers::{ClosestPeersIter, ClosestPeersIterConfig, PeersIterState},
+};
+use crate::{
+    kbucket::{self, Entry, InsertResult, KBucketConfig, KBucketsTable},
+    protocol,
+    query::verif_peers::{ClosestDisjointPeersIter, FixedPeersIter},
+    record::Record,
+};
+
+// ---------------------------------------------------------------------------------------------
+// routing table
+
+/// What `KBucketsTable::entry` reported for a key.
+#[derive(Debug, Clone, Copy, PartialEq, Eq)]
+pub enum EntryKind {
+    /// The key is the local key (`entry` returned `None`).
+    Local,
+    Present(NodeStatus),
+    Pending(NodeStatus),
+    Absent,
+}
+
+/// Result of `Table::insert`.
+#[derive(Debug, Clone, PartialEq, Eq)]
+pub enum Inserted {
+    /// `entry` did not return `Absent`; nothing was attempted.
+    NotAbsent(EntryKind),
+    Inserted,
+    Pending { disconnected: KeyBytes },
+    Full,
+}
+
+/// One node as seen through the table's read API.
+#[derive(Debug, Clone, PartialEq, Eq)]
+pub struct NodeSnap {
+    pub key: KeyBytes,
+    pub value: u32,
+    pub status: NodeStatus,
+}
+
+/// Raw content of a bucket (read without applying pending entries).
+#[derive(Debug, Clone, PartialEq, Eq)]
+pub struct BucketSnap {
+    pub index: usize,
+    pub nodes: Vec<NodeSnap>,
+    pub pending: Option<NodeSnap>,
+    /// `PendingNode::is_ready()` of the pending node, if any.
+    pub pending_ready: bool,
+}
+
+/// An `AppliedPending` record.
+#[derive(Debug, Clone, PartialEq, Eq)]
+pub struct Applied {
+    pub inserted: (KeyBytes, u32),
+    pub evicted: Option<(KeyBytes, u32)>,
+}
+
+/// The real `KBucketsTable`, instantiated with raw keys and `u32` values.
+pub struct Table(KBucketsTable<KeyBytes, u32>);
+
+impl Table {
+    pub fn new(local: KeyBytes, bucket_size: NonZeroUsize, pending_timeout: Duration) -> Self {
+        let mut cfg = KBucketConfig::default();
+        cfg.set_bucket_size(bucket_size);
+        cfg.set_pending_timeout(pending_timeout);
+        Table(KBucketsTable::new(local, cfg))
+    }
+
+    pub fn local_key(&self) -> KeyBytes {
+        *self.0.local_key()
+    }
+
+    /// `entry(key)` (applies a ready pending entry of that bucket) and reports its kind.
+    pub fn entry_kind(&mut self, key: &KeyBytes) -> EntryKind {
+        match self.0.entry(key) {
+            None => EntryKind::Local,
+            Some(Entry::Present(_, s)) => EntryKind::Present(s),
+            Some(Entry::Pending(_, s)) => EntryKind::Pending(s),
+            Some(Entry::Absent(_)) => EntryKind::Absent,
+        }
+    }
+
+    /// `entry(key)` then `AbsentEntry::insert(value, status)`.
+    pub fn insert(&mut self, key: &KeyBytes, value: u32, status: NodeStatus) -> Inserted {
+        match self.0.entry(key) {
+            None => Inserted::NotAbsent(EntryKind::Local),
+            Some(Entry::Present(_, s)) => Inserted::NotAbsent(EntryKind::Present(s)),
+            Some(Entry::Pending(_, s)) => Inserted::NotAbsent(EntryKind::Pending(s)),
+            Some(Entry::Absent(e)) => match e.insert(value, status) {
+                InsertResult::Inserted => Inserted::Inserted,
+                InsertResult::Full => Inserted::Full,
+                InsertResult::Pending { disconnected } => Inserted::Pending { disconnected },
+            },
+        }
+    }
+
+    /// `entry(key)` then `PresentEntry::update` / `PendingEntry::update`; returns the kind found.
+    pub fn update(&mut self, key: &KeyBytes, status: NodeStatus) -> EntryKind {
+        match self.0.entry(key) {
+            None => EntryKind::Local,
+            Some(Entry::Present(mut e, s)) => {
+                e.update(status);
+                EntryKind::Present(s)
+            }
+            Some(Entry::Pending(e, s)) => {
+                let _ = e.update(status);
+                EntryKind::Pending(s)
+            }
+            Some(Entry::Absent(_)) => EntryKind::Absent,
+        }
+    }
+
+    /// `entry(key)` then `PresentEntry::remove` / `PendingEntry::remove`.
+    pub fn remove(&mut self, key: &KeyBytes) -> (EntryKind, Option<NodeSnap>) {
+        match self.0.entry(key) {
+            None => (EntryKind::Local, None),
+            Some(Entry::Present(e, s)) => {
+                let v = e.remove();
+                (
+                    EntryKind::Present(s),
+                    Some(NodeSnap {
+                        key: v.node.key,
+                        value: v.node.value,
+                        status: v.status,
+                    }),
+                )
+            }
+            Some(Entry::Pending(e, s)) => {
+                let v = e.remove();
+                (
+                    EntryKind::Pending(s),
+                    Some(NodeSnap {
+                        key: v.node.key,
+                        value: v.node.value,
+                        status: v.status,
+                    }),
+                )
+            }
+            Some(Entry::Absent(_)) => (EntryKind::Absent, None),
+        }
+    }
+
+    /// `entry(key).value()`.
+    pub fn value(&mut self, key: &KeyBytes) -> Option<u32> {
+        self.0.entry(key).as_mut().and_then(|e| e.value()).map(|v| *v)
+    }
+
+    /// `iter()` over all buckets (applies ready pending entries everywhere): per non-empty
+    /// bucket `(range.0, range.1, num_entries, has_pending, entries)`.
+    #[allow(clippy::type_complexity)]
+    pub fn iter_buckets(&mut self) -> Vec<(Distance, Distance, usize, bool, Vec<NodeSnap>)> {
+        self.0
+            .iter()
+            .filter(|b| !b.is_empty() || b.has_pending())
+            .map(|b| {
+                let (lo, hi) = b.range();
+                let nodes = b
+                    .iter()
+                    .map(|e| NodeSnap {
+                        key: *e.node.key,
+                        value: *e.node.value,
+                        status: e.status,
+                    })
+                    .collect();
+                (lo, hi, b.num_entries(), b.has_pending(), nodes)
+            })
+            .collect()
+    }
+
+    /// `bucket(key)`: `(range, num_entries, has_pending, contains(distance(local,key)))`.
+    pub fn bucket_of(&mut self, key: &KeyBytes) -> Option<(Distance, Distance, usize, bool, bool)> {
+        let d = self.0.local_key().distance(key);
+        self.0.bucket(key).map(|b| {
+            let (lo, hi) = b.range();
+            (lo, hi, b.num_entries(), b.has_pending(), b.contains(&d))
+        })
+    }
+
+    pub fn closest_keys(&mut self, target: &KeyBytes) -> Vec<KeyBytes> {
+        self.0.closest_keys(target).collect()
+    }
+
+    pub fn closest(&mut self, target: &KeyBytes) -> Vec<NodeSnap> {
+        self.0
+            .closest(target)
+            .map(|v| NodeSnap {
+                key: v.node.key,
+                value: v.node.value,
+                status: v.status,
+            })
+            .collect()
+    }
+
+    pub fn count_nodes_between(&mut self, target: &KeyBytes) -> usize {
+        self.0.count_nodes_between(target)
+    }
+
+    pub fn take_applied_pending(&mut self) -> Option<Applied> {
+        self.0.take_applied_pending().map(|a| Applied {
+            inserted: (a.inserted.key, a.inserted.value),
+            evicted: a.evicted.map(|n| (n.key, n.value)),
+        })
+    }
+
+    /// Read-only snapshot of all non-empty buckets; does **not** apply pending entries.
+    pub fn snapshot(&self) -> Vec<BucketSnap> {
+        self.0
+            .verif_buckets()
+            .iter()
+            .enumerate()
+            .filter(|(_, b)| b.num_entries() > 0 || b.pending().is_some())
+            .map(|(index, b)| BucketSnap {
+                index,
+                nodes: b
+                    .iter()
+                    .map(|(n, status)| NodeSnap {
+                        key: n.key,
+                        value: n.value,
+                        status,
+                    })
+                    .collect(),
+                pending: b.pending().map(|p| NodeSnap {
+                    key: p.verif_node().key,
+                    value: p.verif_node().value,
+                    status: p.status(),
+                }),
+                pending_ready: b.pending().is_some_and(|p| p.is_ready()),
+            })
+            .collect()
+    }
+}
+
+// ---------------------------------------------------------------------------------------------
+// peer iterators
+
+/// The real `ClosestDisjointPeersIter`.
+pub struct Disjoint(ClosestDisjointPeersIter);
+
+impl Disjoint {
+    pub fn with_config<I>(config: ClosestPeersIterConfig, target: KeyBytes, known: I) -> Self
+    where
+        I: IntoIterator<Item = kbucket::Key<PeerId>>,
+    {
+        Disjoint(ClosestDisjointPeersIter::with_config(config, target, known))
+    }
+    pub fn next(&mut self, now: Instant) -> PeersIterState<'_> {
+        self.0.next(now)
+    }
+    pub fn on_success<I: IntoIterator<Item = PeerId>>(&mut self, peer: &PeerId, closer: I) -> bool {
+        self.0.on_success(peer, closer)
+    }
+    pub fn on_failure(&mut self, peer: &PeerId) -> bool {
+        self.0.on_failure(peer)
+    }
+    pub fn finish(&mut self) {
+        self.0.finish()
+    }
+    pub fn is_finished(&self) -> bool {
+        self.0.is_finished()
+    }
+    /// Per path: `(num_waiting, is_stalled, is_finished)`.
+    pub fn paths(&self) -> Vec<(usize, bool, bool)> {
+        self.0
+            .verif_paths()
+            .iter()
+            .map(|p| (p.num_waiting(), p.verif_is_stalled(), p.is_finished()))
+            .collect()
+    }
+    pub fn into_result(self) -> Vec<PeerId> {
+        self.0.into_result().collect()
+    }
+}
+
+/// The real `FixedPeersIter`.
+pub struct Fixed(FixedPeersIter);
+
+impl Fixed {
+    pub fn new<I: IntoIterator<Item = PeerId>>(peers: I, parallelism: NonZeroUsize) -> Self {
+        Fixed(FixedPeersIter::new(peers, parallelism))
+    }
+    pub fn next(&mut self) -> PeersIterState<'_> {
+        self.0.next()
+    }
+    pub fn on_success(&mut self, peer: &PeerId) -> bool {
+        self.0.on_success(peer)
+    }
+    pub fn on_failure(&mut self, peer: &PeerId) -> bool {
+        self.0.on_failure(peer)
+    }
+    pub fn finish(&mut self) {
+        self.0.finish()
+    }
+    pub fn is_finished(&self) -> bool {
+        self.0.is_finished()
+    }
+    pub fn into_result(self) -> Vec<PeerId> {
+        self.0.into_result().collect()
+    }
+}
+
+// ---------------------------------------------------------------------------------------------
+// wire codec
+
+/// Encodes a request with the real (length-prefixed protobuf) codec.
+pub fn req_to_bytes(msg: KadRequestMsg, max_packet_size: usize) -> io::Result<Vec<u8>> {
+    let mut codec = protocol::verif_codec::<KadRequestMsg, KadResponseMsg>(max_packet_size);
+    let mut dst = BytesMut::new();
+    codec.encode(msg, &mut dst)?;
+    Ok(dst.to_vec())
+}
+
+/// Encodes a response with the real codec.
+pub fn resp_to_bytes(msg: KadResponseMsg, max_packet_size: usize) -> io::Result<Vec<u8>> {
+    let mut codec = protocol::verif_codec::<KadResponseMsg, KadRequestMsg>(max_packet_size);
+    let mut dst = BytesMut::new();
+    codec.encode(msg, &mut dst)?;
+    Ok(dst.to_vec())
+}
+
+/// Decodes one request frame with the real codec; also returns the number of bytes left.
+pub fn req_from_bytes(
+    bytes: &[u8],
+    max_packet_size: usize,
+) -> io::Result<(Option<KadRequestMsg>, usize)> {
+    let mut codec = protocol::verif_codec::<KadResponseMsg, KadRequestMsg>(max_packet_size);
+    let mut src = BytesMut::from(bytes);
+    let msg = codec.decode(&mut src)?;
+    Ok((msg, src.len()))
+}
+
+/// Decodes one response frame with the real codec; also returns the number of bytes left.
+pub fn resp_from_bytes(
+    bytes: &[u8],
+    max_packet_size: usize,
+) -> io::Result<(Option<KadResponseMsg>, usize)> {
+    let mut codec = protocol::verif_codec::<KadRequestMsg, KadResponseMsg>(max_packet_size);
+    let mut src = BytesMut::from(bytes);
+    let msg = codec.decode(&mut src)?;
+    Ok((msg, src.len()))
+}
+
+/// The `ttl` field the real `record_to_proto` writes for `record`.
+pub fn record_ttl_on_wire(record: Record) -> u32 {
+    protocol::verif_record_ttl_on_wire(record)
+}
